@@ -151,6 +151,7 @@ void h_init(void)
     } else {
 	CHECK(ghost_err_calls == 1 && ghost_err_category == VNAERR_USAGE &&
 		errno == EINVAL, "init: refusal reported once as EINVAL");
+	CHECK(vd_view_same(&pre, &post), "init: a refused call leaves the object as it was");
     }
     vnadata_free(&vdip->vdi_vd);	/* and the result can be freed: no leak */
 }
@@ -668,6 +669,32 @@ void h_free(void)
     vnadata_free(&vdip->vdi_vd);
     REACH("free returned");
     /* --memory-leak-check: nothing the object owned remains allocated */
+}
+
+/* ------------------------------------------------------- resize: huge sizes */
+/*
+ * Dimensions whose product does not fit the size arithmetic (65536 x 65536,
+ * 46341 x 46341): the call must be refused - not wrap around to a small or
+ * negative cell count and leave an object whose logical size exceeds its
+ * storage.  Concrete sizes; CBMC's signed-overflow checks are the obligation.
+ */
+#ifndef HUGE_N
+#define HUGE_N 65536
+#endif
+void h_resize_huge(void)
+{
+    vnadata_t *vdp;
+    int rc;
+
+    ghost_err_reset();
+    vdp = vnadata_alloc_and_init(verif_error_fn, NULL, VPT_UNDEF, 1, 1, 1);
+    ASSUME(vdp != NULL);
+    rc = vnadata_resize(vdp, VPT_UNDEF, HUGE_N, HUGE_N, 1);
+    REACH("huge resize returned");
+    CHECK(rc == -1 && ghost_err_calls == 1, "a matrix too large for the size arithmetic is refused with one report");
+    CHECK(vnadata_get_rows(vdp) == 1 && vnadata_get_columns(vdp) == 1 && vnadata_get_frequencies(vdp) == 1,
+	    "and the object keeps its size");
+    vnadata_free(vdp);
 }
 
 #ifdef VERIF_NATIVE
